@@ -1,7 +1,7 @@
 """Property id -> check function(prop, tier, seed) -> exit status."""
 import json
 
-from . import checks_sampler, checks_ckpt, checks_bounds, checks_small, checks_equiv
+from . import checks_sampler, checks_ckpt, checks_bounds, checks_small, checks_equiv, checks_round
 
 CHECKS = {
     'C01': checks_sampler.check,
@@ -13,6 +13,7 @@ CHECKS = {
     'C05': checks_ckpt.check_c05,
     'C06': checks_ckpt.check_c06,
     'C07': checks_bounds.check_c07,
+    'C08': checks_round.check_c08,
     'C09': checks_bounds.check_c09,
     'C13': checks_bounds.check_c13,
     'C14': checks_small.check_c14,
